@@ -479,6 +479,7 @@ class Template:
         """
         if getattr(context, "_with_template", None) is None:
             context._set_with_template(self)
+        runtime._check_reserved_names(self, kwargs)
         runtime._render_context(self, self.callable_, context, *args, **kwargs)
 
     def has_def(self, name):
